@@ -62,9 +62,13 @@ def check_seq(ctx, label, src, seq, steps, memmap_by_id, replay0):
     replay = dict(replay0, variant=label, passes=list(seq), block=Ser(src).data)
     ins0, outs0 = passlib.io_names(src)
     work = passlib.private_copy(src)
+    # every pass is given `block=` explicitly; in a third of the runs the working block is an unrelated one
+    foreign = ctx.rng.random() < 0.35
+    replay['foreign_working_block'] = foreign
+    ctx.count('working-block', 'foreign' if foreign else 'same')
     for pname in seq:
         try:
-            passlib.run_in(work, lambda: ALL[pname](work))
+            passlib.run_in(work, lambda: ALL[pname](work), foreign=foreign)
         except Exception as e:  # noqa
             ctx.violation('%s-raises:%s' % (pname, simrun.err_class(e)),
                           '%s (sequence %s, %s block) raised %s: %s' % (pname, '>'.join(seq), label, type(e).__name__, str(e)[:200]), replay)
@@ -118,7 +122,7 @@ def main(ctx):
         n *= 3
     agree = total = 0
     gnames = sorted(GENERIC_PASSES)
-    for k in range(n):
+    for k in ctx.loop(n):
         rng = ctx.rng
         d = gen.rand_design(rng, profile='small' if k % 3 else 'med', nops=rng.randint(3, 12), max_total=40,
                             wide_mem=False, raw=False, outputs='most')
